@@ -108,16 +108,17 @@ def origin(annotation: tp.Any) -> tp.Any:
         >>> origin(Foo)
         <class 'typelib.Foo'>
     """
-    # Resolve custom NewTypes.
-    actual = resolve_supertype(annotation)
-
-    # Unwrap optional/classvar
-    if isclassvartype(actual):
-        a = args(actual)
-        actual = a[0] if a else actual
-
-    if istypealiastype(actual):
-        actual = actual.__value__
+    # Resolve custom NewTypes, class-variables and type aliases, however they are layered.
+    actual, previous = annotation, None
+    while actual is not previous:
+        previous = actual
+        actual = resolve_supertype(actual)
+        # Unwrap optional/classvar
+        if isclassvartype(actual):
+            a = args(actual)
+            actual = a[0] if a else actual
+        if istypealiastype(actual):
+            actual = actual.__value__
 
     actual = tp.get_origin(actual) or actual
 
